@@ -301,7 +301,7 @@ Inductive emitted :=
 (* writeObjectGeneric / writeFlatObject dispatch with ctx.EncKey != nil.
    to_os = writeToObjectStream(...) answered true for this object.
    strE = string cipher, stmE = stream cipher of this object number. *)
-Definition write_iobj (strE stmE : bytes -> res bytes) (to_os : bool) (io : iobj) : res emitted :=
+Definition write_keyed (strE stmE : bytes -> res bytes) (to_os : bool) (io : iobj) : res emitted :=
   match io with
   | IObj o =>
       match o with
@@ -316,8 +316,33 @@ Definition write_iobj (strE stmE : bytes -> res bytes) (to_os : bool) (io : iobj
           if type_is nXRef d' || single_crypt filters then Ok (EmTopStream d' raw)
           else match stmE raw with Ok raw' => Ok (EmTopStream d' raw') | Err => Err end
       end
-  | ILazy o => Ok (EmTop o)                        (* writeLazyObjectStreamObject: raw bytes, NO encryption *)
+  | ILazy o => Ok (EmTop o)                        (* writeLazyObjectStreamObject: raw bytes, NO encryption;
+                                                      not reachable through writeIndirectObject when a key is set *)
   end.
+
+(* the same dispatch with ctx.EncKey == nil: nothing is enciphered; the lazy fast path copies the member *)
+Definition write_plain (to_os : bool) (io : iobj) : res emitted :=
+  match io with
+  | IObj o =>
+      match o with
+      | OInt _ | ONull => Ok (EmTop o)
+      | _ => if to_os then Ok (EmMember o) else Ok (EmTop o)
+      end
+  | IStream d filters raw => Ok (EmTopStream d raw)
+  | ILazy o => Ok (EmTop o)
+  end.
+
+(* writeIndirectObject: deref = ctx.Dereference when a key is set (an undecoded object-stream member is
+   decoded first and then takes the normal path), ctx.DereferenceForWrite otherwise *)
+Definition deref_for_write (keyed : bool) (io : iobj) : iobj :=
+  match io with
+  | ILazy o => if keyed then IObj o else io
+  | _ => io
+  end.
+
+Definition write_iobj (keyed : bool) (strE stmE : bytes -> res bytes) (to_os : bool) (io : iobj) : res emitted :=
+  if keyed then write_keyed strE stmE to_os (deref_for_write true io)
+  else write_plain to_os (deref_for_write false io).
 
 (* Reader: resolveObject (dict()/decryptDeepObject) and saveDecodedStreamContent/decryptStreamContent.
    emd = ctx.E.Emd.  A member of an object stream is parsed from the decrypted stream data and is not
